@@ -9,6 +9,7 @@ import (
 	"go/constant"
 	"go/token"
 	"go/types"
+	"sort"
 	"strconv"
 	"strings"
 
@@ -44,6 +45,8 @@ type senv struct {
 	depth  int
 	callerPtrs []string // non-nil when a callee contract is instantiated at a call site: fresh(x) also means distinct from these
 	callerSide bool
+	inQuant    bool
+	abstract   bool // refinement mode: ghosts that have an abstraction are replaced by their definition
 }
 
 func (e *senv) child() *senv {
@@ -184,7 +187,15 @@ func (c *evalCtx) rv(v *sv) []string {
 		if v.ty == nil {
 			c.fail("untyped lvalue")
 		}
-		return c.t.load(c.cur, v.addr, v.ty)
+		terms := c.t.load(c.cur, v.addr, v.ty)
+		// typed memory: whatever is loaded has the invariants of its static type (facts are global; skipped under binders)
+		if !c.env.inQuant && len(terms) == 1 {
+			if !c.t.specFacts[terms[0]] {
+				c.t.specFacts[terms[0]] = true
+				c.t.typeFacts("true", terms[0], v.ty)
+			}
+		}
+		return terms
 	}
 	if v.nilLit {
 		c.fail("untyped nil outside a comparison")
@@ -806,6 +817,30 @@ func (c *evalCtx) call(x *ast.CallExpr) *sv {
 			r.ty = c.typeOfArg(args[1])
 		}
 		return r
+	case "isfunc":
+		// isfunc(v, "<ssa function name>"): the func value (or the func boxed in interface v) is that function/closure
+		need(2)
+		v := c.eval(args[0])
+		bl, ok := args[1].(*ast.BasicLit)
+		if !ok {
+			c.fail("isfunc needs a string literal")
+		}
+		f := c.t.eng.byName[unquote(bl.Value)]
+		if f == nil {
+			c.fail("isfunc: no function %s", unquote(bl.Value))
+		}
+		sym := c.t.funcSym(f)
+		if v.sort == "iface" {
+			return boolSV(fmt.Sprintf("(and (not (= (ityp %s) 0)) (= (iint %s) %s))", c.rv1(v), c.rv1(v), sym))
+		}
+		return boolSV(fmt.Sprintf("(= %s %s)", c.rv1(v), sym))
+	case "wellformed":
+		need(1)
+		v := c.eval(args[0])
+		if v.sort != "iface" {
+			c.fail("wellformed needs an interface value")
+		}
+		return boolSV("(iface_wf " + c.rv1(v) + ")")
 	case "isnan":
 		need(1)
 		return boolSV("(fp.isNaN " + c.rv1(c.eval(args[0])) + ")")
@@ -856,6 +891,40 @@ func (c *evalCtx) call(x *ast.CallExpr) *sv {
 			return boolSV("true")
 		}
 		return boolSV("(and " + strings.Join(conj, " ") + ")")
+	case "nochange":
+		// nochange(): every object that existed at entry has its entry contents, and every ghost has its entry value
+		// (ghosts keyed by an object reference: for the objects that existed at entry)
+		skip := map[string]bool{}
+		for _, a := range args {
+			if id, ok := a.(*ast.Ident); ok {
+				skip["G_"+id.Name] = true
+			}
+		}
+		var conj []string
+		var names []string
+		for h := range c.cur {
+			names = append(names, h)
+		}
+		sort.Strings(names)
+		for _, h := range names {
+			cur, old := c.cur[h], c.t.H(c.old, h)
+			if cur == old || strings.HasPrefix(h, "D_") || skip[h] {
+				continue
+			}
+			c.t.nfresh++
+			ty, ref := fmt.Sprintf("ncty%d", c.t.nfresh), fmt.Sprintf("ncref%d", c.t.nfresh)
+			if strings.HasPrefix(h, "H_") {
+				conj = append(conj, fmt.Sprintf("(forall ((%s Int) (%s Int)) (=> (existed %s) (= (select (select %s %s) %s) (select (select %s %s) %s))))", ty, ref, ref, cur, ty, ref, old, ty, ref))
+			} else if g := c.t.eng.specs.Ghosts[strings.TrimPrefix(h, "G_")]; g != nil && len(g.Keys) > 0 && g.Keys[0] == "ref" {
+				conj = append(conj, fmt.Sprintf("(forall ((%s Int)) (=> (existed %s) (= (select %s %s) (select %s %s))))", ref, ref, cur, ref, old, ref))
+			} else {
+				conj = append(conj, fmt.Sprintf("(= %s %s)", cur, old))
+			}
+		}
+		if len(conj) == 0 {
+			return boolSV("true")
+		}
+		return boolSV("(and " + strings.Join(conj, " ") + ")")
 	case "sameobj":
 		// sameobj(x): every cell of the object x points to is unchanged since the pre-state (per heap sort of its type)
 		need(1)
@@ -892,6 +961,24 @@ func (c *evalCtx) call(x *ast.CallExpr) *sv {
 		}
 		return v
 	}
+	if ab, ok := c.t.eng.specs.Abstractions[name]; ok && c.env.abstract {
+		if len(args) != len(ab.Params) {
+			c.fail("abstraction %s expects %d argument(s)", name, len(ab.Params))
+		}
+		ne := &senv{t: c.t, vars: map[string]*sv{}, lets: map[string]ast.Expr{}, depth: c.env.depth + 1, abstract: true, inQuant: c.env.inQuant}
+		ne.pkg = c.env.pkg
+		if ab.Pkg != "" {
+			if pp := c.t.eng.pkgs[ab.Pkg]; pp != nil {
+				ne.pkg = pp.Pkg
+			}
+		}
+		for i, a := range args {
+			ne.vars[ab.Params[i]] = c.eval(a)
+		}
+		nc := *c
+		nc.env = ne
+		return nc.eval(ab.Body)
+	}
 	if g, ok := c.t.eng.specs.Ghosts[name]; ok {
 		if len(args) != len(g.Keys) {
 			c.fail("ghost %s expects %d key(s)", name, len(g.Keys))
@@ -923,7 +1010,7 @@ func (c *evalCtx) call(x *ast.CallExpr) *sv {
 		if c.env.depth > 20 {
 			c.fail("predicate recursion too deep")
 		}
-		ne := &senv{t: c.t, vars: map[string]*sv{}, lets: map[string]ast.Expr{}, depth: c.env.depth + 1, callerSide: c.env.callerSide, callerPtrs: c.env.callerPtrs}
+		ne := &senv{t: c.t, vars: map[string]*sv{}, lets: map[string]ast.Expr{}, depth: c.env.depth + 1, callerSide: c.env.callerSide, callerPtrs: c.env.callerPtrs, inQuant: c.env.inQuant, abstract: c.env.abstract}
 		ne.pkg = c.env.pkg
 		if p.Pkg != "" {
 			if pp := c.t.eng.pkgs[p.Pkg]; pp != nil {
@@ -1086,6 +1173,7 @@ func (c *evalCtx) quant(kind string, args []ast.Expr) *sv {
 		return true
 	})
 	ne := c.env.child()
+	ne.inQuant = true
 	nc := *c
 	nc.env = ne
 	var rangeC, pattern string
@@ -1260,6 +1348,7 @@ func (c *evalCtx) quantV(kind string, args []ast.Expr) *sv {
 		c.fail("%s: first argument must be a string of name:sort declarations", kind)
 	}
 	ne := c.env.child()
+	ne.inQuant = true
 	nc := *c
 	nc.env = ne
 	var binders []string
